@@ -16,15 +16,20 @@
 
    where [wf_client] is the discipline checker of LifeSpec.v, which never looks at the heap
    (ghost state: references the client holds + parent each window is attached to).
-   What is proved is this statement for EVENT-FREE histories, hence the names _partial:
-   key and mouse dispatch with re-entrant handlers is part of the executable model, of the
-   correspondence check and of the _refuted witnesses below, but the invariant has not been carried
-   through the dispatch loops.  Everything else is at full strength: any number of windows, any
+   It is proved (a) in exactly this form for EVENT-FREE histories (the theorems named _partial), and
+   (b) for histories WITH key and mouse events -- press, drag, release, wheel: the whole drag state machine with
+   its directly delivered DRAG_OUTSIDE / DRAG_STOP -- whose handlers make any calls at any depth
+   (C08_no_fault_events, C08_events_completed), with the client's side stated by the
+   discipline of LifeSpecEv.v: the same rules, but the destruction of a window takes effect when it
+   happens (a window released inside its own handler lives until the dispatch frame lets go), which the
+   checker reads off the library's frame references recorded in the trace.  Still open: (b) for the predictive
+   checker of LifeSpec.v that the oracle of the check uses (tested on every case, not proved).  Everything else is at full strength: any number of windows, any
    depth, any order of ref/unref/close, any number of pending restack requests, any fuel (running
    out of fuel is never a normal-looking value; that enough fuel exists is not proved). *)
 From Coq Require Import ZArith List Bool PArith.
 From Tickit Require Import LifeDefs LifeLemmas LifeInv LifeClose LifeQueue LifeDestroy LifeFate LifeSpec LifeProofs LifeAgree LifeWitness LifePenDefs LifePen.
 From Tickit Require BindDefs LifeBindDefs LifeBindSim LifeBindSafe.
+From Tickit Require Import LifeSpecEv LifeAgreeEv LifeEvents LifeFuel LifeBridge.
 Import ListNotations.
 Local Open Scope Z_scope.
 
@@ -76,12 +81,14 @@ Theorem C08_unref_destroy : forall f, unref_ok f /\ destroy_ok f /\ loop_ok f.
 Proof. exact life_ok. Qed.
 Print Assumptions C08_unref_destroy.
 
-(* after the purge no queued request is about the window or anything below it; no window is touched *)
+(* after the purge no queued request is about the window or anything below it, and the drag source is not the window
+   or anything below it; no window is touched (the root is not among the windows being destroyed) *)
 Theorem C08_purge_complete : forall D fuel w h,
-  hinv D h -> findw h w <> None ->
+  hinv D h -> findw h w <> None -> ~ In root D ->
   hoare (fun h1 => h1 = h) (purge fixed fuel w)
         (fun _ h' => hinv D h' /\ (wins h' = wins h /\ nextw h' = nextw h) /\ unqueued h' w /\
-                     (forall q cq, findq h' q = Some cq -> exists cq0, findq h q = Some cq0 /\ q_win cq = q_win cq0)).
+                     (forall q cq, findq h' q = Some cq -> exists cq0, findq h q = Some cq0 /\ q_win cq = q_win cq0) /\
+                     undragged D h' w).
 Proof. exact purge_spec. Qed.
 Print Assumptions C08_purge_complete.
 
@@ -105,6 +112,66 @@ Theorem C08_copy_bounded : forall k b,
   exists r b', get_span_text false k b = Some (r, b') /\ length b' = length b.
 Proof. exact copy_bounded. Qed.
 Print Assumptions C08_copy_bounded.
+
+(* HISTORIES WITH EVENTS.  [good F h]: the heap invariant, the agreement "reference count = the client's references
+   + the references held by dispatch frames, parents as the ghost has them", the frames [F] being released innermost
+   first with every framed window's parent framed further out -- so that the destruction of a window never consumes a
+   reference a frame holds.  Every dispatch function keeps it (S_all_holds: run_op, run_ops, the handler loops,
+   _handle_key, _handle_mouse, their loops over a copy of the children, on_term_mouse with the drag state machine and
+   _handle_mouse_at), or else the trace has left the discipline. *)
+Theorem C08_dispatch_invariant : forall f, S_all f.
+Proof. exact S_all_holds. Qed.
+Print Assumptions C08_dispatch_invariant.
+
+(* any script, any fuel: if the model faults, the trace of what was executed is not one the discipline accepts *)
+Theorem C08_no_fault_events : forall fuel l f step hf,
+  run_script fixed fuel l = VFault f step hf -> wf_trace (tr hf) = false.
+Proof. exact events_no_fault. Qed.
+Print Assumptions C08_no_fault_events.
+
+(* a run that completes within the discipline ends in a heap that satisfies the invariant, agrees with the ghost, has
+   no frame left, and holds nothing once every reference has been dropped *)
+Theorem C08_events_completed : forall fuel l h,
+  run_script fixed fuel l = VOk h -> wf_trace (tr h) = true ->
+  hinv [] h /\ exists g, echeck e0 (rev (tr h)) = Some g /\ agreeE g h /\
+                         (forall i x, nth_error g i = Some x -> e_fr x = 0) /\
+                         (all_dropped_e g = true -> heap_empty h = true).
+Proof. exact events_completed. Qed.
+Print Assumptions C08_events_completed.
+
+Theorem C08_events_drag_nonvacuous : exists h,
+  run_script fixed 80 drag_demo = VOk h /\ wf_trace (tr h) = true /\ heap_empty h = true /\
+  (10 <= length (filter (fun o => match o with OFrameRef _ => true | _ => false end) (tr h)))%nat.
+Proof. exact drag_nonvacuous. Qed.
+Print Assumptions C08_events_drag_nonvacuous.
+
+Theorem C08_events_nonvacuous : exists h,
+  run_script fixed 80 ev_demo = VOk h /\ wf_trace (tr h) = true /\ heap_empty h = true /\
+  (6 <= length (filter (fun o => match o with OFrameRef _ => true | _ => false end) (tr h)))%nat.
+Proof. exact events_nonvacuous. Qed.
+Print Assumptions C08_events_nonvacuous.
+
+(* the two disciplines -- destruction predicted at the client's last unref (LifeSpec.v, the oracle of the check) and
+   destruction observed when the last reference of either kind goes (LifeSpecEv.v) -- accept the same clients on every
+   trace without frame references, in particular on every event-free history *)
+Theorem C08_disciplines_agree : forall l, forallb is_client l = true ->
+  (match echeck e0 l with Some _ => true | None => false end) = wf_client l.
+Proof. exact disciplines_agree. Qed.
+Print Assumptions C08_disciplines_agree.
+
+(* FUEL.  More fuel never changes a result: a run that does not stop for lack of fuel gives the same verdict with any
+   larger fuel (every function of the model, the event dispatch included; fm_dispatch, fm_life, ...) *)
+Theorem C08_fuel_monotone : forall l fuel fuel' k h, (fuel <= fuel')%nat ->
+  (forall s, run_script_from fixed fuel l k h <> VNoFuel s) ->
+  run_script_from fixed fuel' l k h = run_script_from fixed fuel l k h.
+Proof. exact fuel_monotone. Qed.
+Print Assumptions C08_fuel_monotone.
+
+(* ... but with events there is no fuel bound, in the model as in the library: a key handler that sends the key again
+   recurses for ever; every fuel runs out *)
+Theorem C08_fuel_bound_refuted_events : forall fuel, exists s, run_script fixed fuel loop_script = VNoFuel s.
+Proof. exact no_fuel_bound_with_events. Qed.
+Print Assumptions C08_fuel_bound_refuted_events.
 
 (* the render buffer's pen stack (model LifePenDefs.v of setpen / save / savepen / restore, whole-line
    text and erase, clear, reset, flush and destroy in src/renderbuffer.c): the invariant [rinv]
